@@ -17,6 +17,7 @@ import IocProofs.Lemmas.ConcEntry
 import IocProofs.Lemmas.ConcNinth
 import IocProofs.Lemmas.SemDelegate
 import IocProofs.Lemmas.SemMisc
+import IocProofs.Lemmas.SemMeta
 
 namespace Ioc.C14
 open Ioc.Conc
@@ -421,5 +422,13 @@ theorem C14_code_population_reaches_closers (procs : List Nat) (isInst : Nat →
             (Order.resolveAfterInstantiation isInst res procs).1) ∧
     Go.run (Sem.filterPrims g) Progs.fas_Filter [Sem.encInts l, .str "f"] () = some (Sem.encInts (l.filter g), ()) :=
   ⟨Sem.resolveAfterInstantiation_sem procs isInst res errOk [], Sem.fasFilter_sem g l⟩
+
+/-- every closer is its own component under its own name: SetName / Name (regenerated, `C07_code_meta_names`) keep a custom
+    name exactly as it is given — two names that differ in anything, blanks included, stay two names -/
+theorem C14_code_names_kept (idOf nameOf : Nat → String) (isComp : Nat → Bool) (n : String) (w : Sem.MW) :
+    Go.run (Sem.metaPrims idOf nameOf isComp) Progs.meta_SetName [.str n] w =
+      some (.tuple [], if n != w.name then { w with alias := n } else w) ∧
+    Go.run (Sem.metaPrims idOf nameOf isComp) Progs.meta_Name [] w = some (.str (if w.alias != "" then w.alias else w.name), w) :=
+  ⟨Sem.metaSetName_sem idOf nameOf isComp n w, Sem.metaName_sem idOf nameOf isComp w⟩
 
 end Ioc.C14
